@@ -865,16 +865,26 @@ impl C09 {
         }
         // bases with an update history of their own: several revisions, freed and reused numbers
         // (generations above 0), objects moved between direct and compressed storage, /Prev chains
-        let n_hist = if ctx.tier == Tier::Quick { 12 } else { 64 };
+        let n_hist = if ctx.tier == Tier::Quick { 64 } else { 192 };
         for k in 0..n_hist {
             let mut rng = Rng::new(run_seed(ctx.verif_seed, "C09/history-base", k));
-            let mut h = crate::c02::gen_history(&mut rng, Tier::Quick);
+            // long histories (up to 8 revisions): numbers are freed and reused often enough
+            let mut h = crate::c02::gen_history(&mut rng, Tier::Thorough);
             h.relaxed_reuse = false;
+            // (an encrypted base ends in the listed finding K3 at the first string written; the corpus has five)
+            h.encrypt = None;
             let spec = crate::c02::compile(&h);
             let w = docgen::write_doc(&spec);
             if let Err(e) = docgen::self_check(&spec, &w) {
                 eprintln!("HARNESS-ERROR: writer self-check failed (C09 history base {}): {}", k, e);
                 std::process::exit(2);
+            }
+            if std::env::var("VERIF_DEBUG_BASES").is_ok() {
+                let model = docgen::model_after(&spec, spec.revisions.len());
+                let n = model.iter().filter(|(_, l)| matches!(l, docgen::Latest::Direct { gen, body: docgen::Body::Plain(Val::Dict(_)), .. } if *gen >= 1)).count();
+                let any = model.iter().filter(|(_, l)| matches!(l, docgen::Latest::Direct { gen, .. } if *gen >= 1)).count();
+                eprintln!("ANYGEN {}", any);
+                eprintln!("BASE hist{} revs={} dict objects with generation>=1: {}", k, h.revs.len(), n);
             }
             let label = format!("hist{}-{}rev{}", k, h.revs.len(), if h.junk.is_empty() { "" } else { "-junk" });
             let d = Doc::from_bytes(&label, "generated", w.bytes, b"");
